@@ -21,6 +21,15 @@ func main() {
 	if exe, err := os.Executable(); err == nil {
 		verifDir = filepath.Dir(filepath.Dir(exe))
 	}
+	if out := os.Getenv("VERIF_OUT"); out != "" {
+		// self-validation runs (scratch copies of the repository) write their
+		// evidence and replay files elsewhere; known_findings.json is still read from /verif
+		os.MkdirAll(out, 0o755)
+		if b, err := os.ReadFile(filepath.Join(verifDir, "known_findings.json")); err == nil {
+			os.WriteFile(filepath.Join(out, "known_findings.json"), b, 0o644)
+		}
+		verifDir = out
+	}
 	defer func() {
 		if r := recover(); r != nil {
 			fmt.Fprintf(os.Stderr, "CHECK-BROKEN: panic: %v\n%s\n", r, debug.Stack())
